@@ -233,7 +233,8 @@ class C15(Check):
                   'bytes + line over a NUL-terminated text, every `++pos.pos` a checked advance, loops with explicit fuel): parse never runs '
                   'out of fuel 2*length+3 and never steps past the terminator for every byte string; a reported (line, column) is the '
                   'coordinate pair of an offset of the text; parse(toString v) = canon v (equal tree) for every tree of null, booleans, '
-                  '32/64-bit integers, NUL-free strings, lists and maps with distinct NUL-free keys; stripComments = a five-state reference '
+                  '32/64-bit integers, NUL-free strings, lists and maps with distinct NUL-free keys (layers: unescape(escape s) = s, atoll(printf z) = z); '
+                  'the string tokenizer = RFC 8259 on valid literals (escapes, surrogate pairs, UTF-8); stripComments = a five-state reference '
                   'machine for every input, keeps every line break, is the identity on texts without a slash. The model is tied to the code '
                   'by running the extracted model, the extracted spec and the ASan/UBSan build on the same inputs (parse results, error '
                   'positions, toString text, re-parsed trees, stripped texts compared line by line; exact-size heap copies; watchdog).')
@@ -242,9 +243,9 @@ class C15(Check):
                   'model functions over the whole 64-bit range and validated against libc on boundary and random integers only. '
                   'Doubles are outside the property (kept as opaque text). The nesting depth bound (1000) concerns the C++ stack: the model '
                   'needs no depth hypothesis, depth up to 1000 is validated by correspondence only (stream nesting). HashMap is modelled as '
-                  'an insertion-ordered association list with replace-in-place on a repeated key. What a valid string literal denotes '
-                  '(RFC 8259 escapes, surrogate pairs to UTF-8) is checked against the reference decoder JsonSpec.ref_string by correspondence only '
-                  '(no theorem). Trusted: Coq kernel, JsonSpec.v (position_inside, reference_strip_from, in_class/value_eq/canon), extraction + OCaml '
+                  'an insertion-ordered association list with replace-in-place on a repeated key. Beyond the property text: the string tokenizer '
+                  'yields the RFC 8259 / RFC 3629 value of every valid literal (theorem string_token_is_rfc8259 against JsonSpec.ref_string; the same '
+                  'reference judges the implementation on op pstr). Trusted: Coq kernel, JsonSpec.v (position_inside, reference_strip_from, in_class/value_eq/canon), extraction + OCaml '
                   'driver, harness, generators. The theorems are about the model; the tie to the code is differential.')
     technique = 'coq-proof + model/implementation correspondence (extracted model vs ASan/UBSan build), spec oracles on implementation answers'
     rule = ('cases = one call each: parse <text>, pstr <string literal content>, strip <text>, rt <tree> (toString then parse); streams: '
